@@ -215,7 +215,19 @@ def classify(d, mp, woven_name, lines):
             props = sorted(set(unit['props_safety']) | set(internal))
         else:
             props = internal
-    return dict(region=region, kind=kind, message=msg, label=label, unit=unit['unit'] if unit else None, props=props, src=src,
+    tool_limit = None
+    if kind == 'termination' and unit is not None and site:
+        # a recursive call wrapped in a closure: Verus cannot carry `decreases` through closures (tool limit, not a verdict)
+        from rsx import closure_extents
+        utext = '\n'.join(lines[unit['line_start'] - 1:unit['line_end']])
+        off = sum(len(l_) + 1 for l_ in lines[unit['line_start'] - 1:site['line_start'] - 1])
+        off_end = off + len(lines[site['line_start'] - 1])
+        try:
+            if any(a_ < off_end and b_ >= off for a_, b_ in closure_extents(utext)):
+                tool_limit = 'recursive call inside a closure: Verus cannot check decreases through closures'
+        except Exception:
+            pass
+    return dict(tool_limit=tool_limit, region=region, kind=kind, message=msg, label=label, unit=unit['unit'] if unit else None, props=props, src=src,
                 src_text=src_text, woven_line=site['line_start'] if site else None,
                 rendered=d.get('rendered', '')[:3000])
 
@@ -352,6 +364,9 @@ def _run_group(group, repo, outdir, seed, rlimit, extra_args, log_air, timeout, 
             res['undecided'].append(dict(message=msg, code=code, unit=c['unit'], src=c['src'], rendered=c['rendered'], woven_line=c.get('woven_line')))
             continue
         if c['kind'] == 'recommends':
+            continue
+        if c.get('tool_limit'):
+            res['undecided'].append(dict(message=c['tool_limit'], code=None, unit=c['unit'], src=c['src'], rendered=c['rendered'], woven_line=c.get('woven_line')))
             continue
         res['diags'].append(c)
     if rep is None:
